@@ -423,6 +423,12 @@ def judge_c18(data, model, label, faults, acc, order):
             bad = bytearray(data)
             bad[off] ^= 1 << bit
             must_raise(bytes(bad), "bit-flip", off * 8 + bit)
+    # byte-wide damage (a burst of up to 8 bits, which CRC-32C always detects)
+    for off in range(CRC_OFF, len(data)):
+        for v in {0x00, 0xFF, data[off] ^ 0xFF, (data[off] + 1) & 0xFF} - {data[off]}:
+            bad = bytearray(data)
+            bad[off] = v
+            must_raise(bytes(bad), "byte-overwrite", off)
     for cut in range(len(data)):
         must_raise(data[:cut], "truncation", cut)
     for mg in (0, 1, 3, 0xFF):
@@ -492,7 +498,7 @@ def run_c18(tier):
         f"every reference-encoded batch within k<={k} deviations of the base batch (whole-millisecond "
         "timestamps) and the four real-broker fixtures: identity read (header fields, records, exact "
         "consumption) and rewrite identity; on every batch of at most 400 bytes within k<=1 (thorough: k<=2), every "
-        "single-bit flip from the first CRC byte to the end, every truncation point and magic in "
+        "single-bit flip and 3-4 byte-wide overwrites per offset from the first CRC byte to the end, every truncation point and magic in "
         "{0,1,3,-1}; each (batch, fault) is a distinct fault case and must make read_batch raise"
     )
     c["exhaustive"] = True
